@@ -153,6 +153,8 @@ func BodySummaryOffset(s *SummaryOffset) []byte {
 }
 func BodyDataEnd(crc uint32) []byte { var w wbuf; w.u32(crc); return w.b }
 
+var zenc, _ = zstd.NewWriter(nil, zstd.WithEncoderConcurrency(1), zstd.WithEncoderLevel(zstd.SpeedFastest))
+
 // Compress compresses a chunk payload.
 func Compress(compression string, b []byte) ([]byte, error) {
 	if c, ok := Codecs[compression]; ok {
@@ -162,12 +164,7 @@ func Compress(compression string, b []byte) ([]byte, error) {
 	case "":
 		return b, nil
 	case "zstd":
-		enc, err := zstd.NewWriter(nil, zstd.WithEncoderConcurrency(1), zstd.WithEncoderLevel(zstd.SpeedFastest))
-		if err != nil {
-			return nil, err
-		}
-		defer enc.Close()
-		return enc.EncodeAll(b, nil), nil
+		return zenc.EncodeAll(b, nil), nil
 	case "lz4":
 		var out bytes.Buffer
 		w := lz4.NewWriter(&out)
